@@ -18,7 +18,7 @@ use kanidm_proto::v1::{AuthCredential, AuthIssueSession, AuthMech, AuthStep};
 use kanidmd_lib::entry::{Entry, EntryInit, EntryNew};
 use kanidmd_lib::idm::authentication::{AuthState, ReauthRequest};
 use kanidmd_lib::idm::delayed::{AuthSessionRecord, DelayedAction};
-use kanidmd_lib::idm::event::AuthEvent;
+use kanidmd_lib::idm::event::{AuthEvent, LdapAuthEvent, UnixPasswordChangeEvent};
 use kanidmd_lib::idm::ldap::LdapSession;
 use kanidmd_lib::idm::server::{IdmServer, IdmServerDelayed, IdmServerTransaction};
 use kanidmd_lib::idm::serviceaccount::GenerateApiTokenEvent;
@@ -729,9 +729,34 @@ fn main() {
     }
     let cci = hook::client_cert_info_from_pem(CERT).expect("client cert info");
     for k in 0..n_misc {
-        // LDAP: a unix-password bind and an application-password bind of a person, and anonymous
+        // LDAP: a REAL unix-password bind of a posix person and a REAL anonymous bind (auth_ldap),
+        // and the session value an application-password bind produces
         let who = if k % 3 == 2 { w.anonymous() } else { w.mk_person(false) };
-        let sess = if k % 3 == 1 { LdapSession::ApplicationPasswordBind(Uuid::from_u128(0xabc), who.uuid) } else { LdapSession::UnixBind(who.uuid) };
+        let tb = base + G + rng.below(5_000_000 * G);
+        let sess = if k % 3 == 1 {
+            LdapSession::ApplicationPasswordBind(Uuid::from_u128(0xabc), who.uuid)
+        } else {
+            if !who.anon {
+                let mut wr = w.rt.block_on(idms.proxy_write(duration_from_epoch_now())).expect("proxy_write");
+                let ml = ModifyList::new_list(vec![
+                    Modify::Present(Attribute::Class, EntryClass::PosixAccount.to_value()),
+                    Modify::Present(Attribute::GidNumber, Value::new_uint32(70_000 + k as u32)),
+                ]);
+                wr.qs_write.internal_modify_uuid(who.uuid, &ml).expect("posix");
+                let anon = wr.qs_write.internal_search_uuid(UUID_ANONYMOUS).expect("anonymous");
+                let mut ident = Identity::from_impersonate_entry_readwrite(anon);
+                ident.origin = IdentType::Internal(InternalRole::System);
+                let ev = UnixPasswordChangeEvent::from_parts(ident, who.uuid, PW.to_string()).expect("event");
+                wr.set_unix_account_password(&ev).expect("unix password");
+                wr.commit().expect("commit");
+            }
+            let lae = LdapAuthEvent::from_parts(who.uuid, if who.anon { String::new() } else { PW.to_string() }).expect("lae");
+            let mut a = w.rt.block_on(idms.auth()).expect("auth txn");
+            let bound = w.rt.block_on(a.auth_ldap(&lae, d(tb))).expect("auth_ldap").expect("ldap bind refused");
+            a.commit().expect("auth commit");
+            assert!(bound.effective_session == LdapSession::UnixBind(who.uuid), "unexpected ldap session");
+            bound.effective_session
+        };
         let mut uses = vec![];
         let mut txt = format!("ldap {}", if who.anon { "anonymous" } else if k % 3 == 1 { "application-password" } else { "unix-password" });
         for _ in 0..6 {
